@@ -24,7 +24,43 @@ def _gamma_delay():
     return {"reproduced": bool(bad), "observed": bad[:2], "expected": "delay = gamma_rv(k, theta)"}
 
 
+def _delayed_multiplicity():
+    """X -> 0 now, Y + Y (and P -> P + Q) later: per firing two Y are delivered, P is unchanged and one Q appears.  Judged in the plain
+    stochastic simulator (both parts at the firing time, so every row must account exactly) and in the delay simulator at a horizon far
+    beyond the delay (everything delivered)."""
+    import warnings
+    warnings.simplefilter("ignore")
+    import numpy as np
+    from bioscrape.types import Model
+    from bioscrape.simulator import py_simulate_model
+    from bioscrape.random import py_seed_random
+    bad = []
+    for fam, dp in (("fixed", {"delay": 0.4}), ("gaussian", {"mean": 0.4, "std": 0.05}), ("gamma", {"k": 4.0, "theta": 0.1})):
+        for delay in (False, True):
+            M = Model(species=["X", "Y", "P", "Q"],
+                      reactions=[(["X"], [], "massaction", {"k": 1.0}, fam, [], ["Y", "Y"], dp), (["X"], [], "massaction", {"k": 0.5}, fam, ["P"], ["P", "Q"], dp)],
+                      initial_condition_dict={"X": 40, "P": 5})
+            py_seed_random(3)
+            tp = np.linspace(0, 60, 121)
+            df = py_simulate_model(tp, Model=M, stochastic=True, delay=delay)
+            rows = df[["X", "Y", "P", "Q"]].to_numpy()
+            check = rows if not delay else rows[-1:]
+            for r in check:
+                fired = 40 - r[0]
+                if r[2] != 5 or r[1] + 2 * r[3] != 2 * fired or (delay and r[0] != 0):
+                    bad.append("%s delay, %s simulator: %d firings of X -> 0 (+ Y + Y or P -> P + Q later) but Y = %s, Q = %s, P = %s (Y + 2Q must be %d, P must stay 5)"
+                               % (fam, "delay" if delay else "plain stochastic", fired, r[1], r[3], r[2], 2 * fired))
+                    break
+    return {"reproduced": bool(bad), "observed": bad[:3], "expected": "delayed products minus delayed reactants, with multiplicity, per firing"}
+
+
 def replay(spec):
+    if spec.get("kind") == "stoich":
+        r = _delayed_multiplicity()
+        if r["reproduced"]:
+            return r
+        from . import C03
+        return C03.replay(spec)
     if spec.get("kind") == "gamma_delay":
         return _gamma_delay()
     if "op" in spec:
